@@ -14,14 +14,16 @@ Use(p, base) == [k |-> "use", path |-> p, oids |-> [i \in 1..Len(p) |-> base + i
 (* the use of a sits on line 1, column 6 of inc.asm - the coordinates of `use u1' in main.asm (same range, two files) *)
 Inc == << [k |-> "label", name |-> "a", oid |-> 1, hasBody |-> FALSE, body |-> <<>>], Use(<<"a">>, 3), [k |-> "const", name |-> "b", oid |-> 2] >>
        \o (IF blk THEN << Use(<<"P">>, 5) >> ELSE <<>>)
-Imp == [k |-> "import", file |-> "inc.asm", sid |-> "$imp1", mode |-> mode, name |-> "m", oid |-> 13,
+Imp == [k |-> "import", file |-> "inc.asm", sid |-> "$imp1", mode |-> (IF mode = "ns2" THEN "ns" ELSE mode), name |-> "m", oid |-> 13,
         items |-> << [name |-> "a", oid |-> 10, alias |-> al, aoid |-> 11], [name |-> "b", oid |-> 12, alias |-> "", aoid |-> 0] >>,
         block |-> IF blk THEN << [k |-> "const", name |-> "P", oid |-> 14] >> ELSE <<>>]
-Main == << Imp, Use(u1, 20), [k |-> "label", name |-> "s", oid |-> 30, hasBody |-> TRUE, body |-> << Use(u2, 31) >>] >>
+(* mode "ns2": the same file is imported a second time, as namespace k (one symbol per import, one definition site) *)
+Imp2 == [k |-> "import", file |-> "inc.asm", sid |-> "$imp2", mode |-> "ns", name |-> "k", oid |-> 15, items |-> <<>>, block |-> <<>>]
+Main == << Imp >> \o (IF mode = "ns2" THEN << Imp2 >> ELSE <<>>) \o << Use(u1, 20), [k |-> "label", name |-> "s", oid |-> 30, hasBody |-> TRUE, body |-> << Use(u2, 31) >>] >>
 Files == [m |-> Main] @@ ("inc.asm" :> Inc)
 P == Project(Files, "m")
-Paths == {<<"a">>, <<"b">>, <<"x">>, <<"m", "a">>, <<"m", "b">>, <<"super", "b">>}
-Init == /\ mode \in {"all", "ns", "sel"} /\ al \in {"", "x"} /\ blk \in BOOLEAN /\ u1 \in Paths /\ u2 \in Paths
+Paths == {<<"a">>, <<"b">>, <<"x">>, <<"m", "a">>, <<"m", "b">>, <<"k", "a">>, <<"super", "b">>}
+Init == /\ mode \in {"all", "ns", "ns2", "sel"} /\ al \in {"", "x"} /\ blk \in BOOLEAN /\ u1 \in Paths /\ u2 \in Paths
         /\ (mode # "sel" => al = "") /\ (blk => mode = "sel")
 Next == UNCHANGED vars
 Spec == Init /\ [][Next]_vars
